@@ -115,6 +115,25 @@ def run(rep: common.Report, tier: str, seed: int, replay=None) -> int:
         dev = meshes.make_device(rng, holes=rng.choice([0, 1]), terminals=2,
                                  max_edge_length=1.6 if cfg["model"] else 0.9)
         run_case(rep, rng, ci, dev, cfg, texts, recs_all)
+    # history on ONE device object: solve, re-mesh (coarse corners-only film, so the boundary numbering really changes), solve,
+    # then move a terminal polygon in place along the edge WITHOUT re-meshing and solve again.  Each time the pinned sites
+    # must be the terminal sites of the device as it is now.
+    import tdgl
+    hdev = tdgl.Device("history", layer=tdgl.Layer(coherence_length=0.5, london_lambda=2.0, thickness=0.1),
+                       film=tdgl.Polygon("film", points=[(-3.0, -2.0), (3.0, -2.0), (3.0, 2.0), (-3.0, 2.0)]),
+                       terminals=[tdgl.Polygon("source", points=[(-3.2, -1.1), (-2.8, -1.1), (-2.8, 0.9), (-3.2, 0.9)]),
+                                  tdgl.Polygon("drain", points=[(2.8, -0.9), (3.2, -0.9), (3.2, 1.2), (2.8, 1.2)])],
+                       length_units="um")
+    hcfg = dict(terminal_psi=0.0, field=0.2, current=1.0, screening=False, solve_time=0.15, model=False)
+    hdev.make_mesh(max_edge_length=1.1, smooth=0)
+    run_case(rep, rng, 200, hdev, hcfg, texts, recs_all)
+    hdev.make_mesh(max_edge_length=0.55, smooth=0)
+    run_case(rep, rng, 201, hdev, hcfg, texts, recs_all)
+    hdev.terminals[0].translate(dy=0.8, inplace=True)
+    run_case(rep, rng, 202, hdev, {**hcfg, "terminal_psi": rng.choice([0.0, 0.4])}, texts, recs_all)
+    run_case(rep, rng, 203, hdev, {**hcfg, "terminal_psi": None}, texts, recs_all)      # same mesh, contacts now unpinned
+    hdev.make_mesh(max_edge_length=0.9, smooth=0)
+    run_case(rep, rng, 204, hdev, {**hcfg, "terminal_psi": 1.0}, texts, recs_all)
     outs = common.run_model_shards("c06_step", texts, jobs=8)
     ndis = 0
     for (rc, out), (r, case) in zip(outs, recs_all):
